@@ -98,7 +98,8 @@ def audit():
 
 def coq_deps(vfile):
     """Transitive .v dependencies inside the development, via coqdep."""
-    rc, out = sh(["coqdep", "-Q", ".", "XS"] + coq_files(), cwd=COQ)
+    files = coq_files()
+    rc, out = sh(["coqdep", "-Q", ".", "XS"] + files + ([vfile] if vfile not in files else []), cwd=COQ)
     deps = {}
     for line in out.splitlines():
         if ":" not in line:
